@@ -34,6 +34,7 @@ MASKCFG = [
     {'mask_freqs': 0.3, 'mask_amp_mode': 'ratio_imf', 'nphases': 2, 'mask_amp': [1.5, 0.7, 1.2, 0.9, 1.0, 1.0, 1.0, 1.0, 1.0]},
     {'mask_freqs': 'zc', 'mask_amp_mode': 'ratio_imf', 'nphases': 3, 'envelope_opts': {'interp_method': 'pchip'},
      'extrema_opts': {'parabolic_extrema': True}, 'imf_opts': {'sd_thresh': 0.2}},
+    {'mask_freqs': [0.04, 0.25, 0.11, 0.3], 'mask_amp_mode': 'ratio_sig', 'nphases': 2},      # the user's list, in the user's order
 ]
 CAPS = (1, 2, 3, 4, 5, 6, None)
 
@@ -192,6 +193,36 @@ def check_sift(case):
         if capped.shape[1] != min(k, n) or not np.array_equal(capped, full[:, :min(k, n)]):
             viols.append(('sift:prefix', '%s: max_imfs=%d gives %d columns, uncapped run has %d; prefix equal: %s' % (
                 tag, k, capped.shape[1], n, capped.shape[1] <= n and np.array_equal(capped, full[:, :capped.shape[1]]))))
+    # the cap given through the other documented routes: call-time keyword to the callable of a configuration,
+    # an entry of the configuration, and sift's second positional... (max_imfs is keyword-only in practice: kwargs routes)
+    if n >= 2:
+        from emd.sift import get_config
+        k = n - 1
+        routes = []
+        try:
+            cfg = get_config('sift')
+            for g_ in ('imf_opts', 'envelope_opts', 'extrema_opts'):
+                for k_, v_ in o[g_].items():
+                    cfg['%s/%s' % (g_, k_)] = v_
+            routes.append(('get_func()(x, max_imfs=k)', lambda: cfg.get_func()(x.copy(), max_imfs=k)))
+            cfg2 = get_config('sift')
+            for g_ in ('imf_opts', 'envelope_opts', 'extrema_opts'):
+                for k_, v_ in o[g_].items():
+                    cfg2['%s/%s' % (g_, k_)] = v_
+            cfg2['max_imfs'] = k
+            routes.append(('sift(x, **config) with config[max_imfs]=k', lambda: sift(x.copy(), **cfg2)))
+            routes.append(('config.get_func()(x) with config[max_imfs]=k', lambda: cfg2.get_func()(x.copy())))
+        except Exception as e:
+            viols.append(('sift:route-raise', '%s: building a configuration raised %r' % (tag, e)))
+        for rname, f_ in routes:
+            try:
+                got = np.asarray(f_())
+            except Exception as e:
+                viols.append(('sift:route-raise', '%s: %s raised %r' % (tag, rname, e)))
+                continue
+            trans += 1
+            if got.shape != (N, k) or not np.array_equal(got, full[:, :k]):
+                viols.append(('sift:cap-route', '%s: cap %d through %s gives %r columns / a different prefix' % (tag, k, rname, got.shape)))
     X = x[:, None]
     for k in range(n):
         resid = X - full[:, :k].sum(axis=1)[:, None]
@@ -242,6 +273,11 @@ def check_mask(case):
         return Outcome(cls='raise', viols=[('mask:raise:%s' % type(e).__name__, '%s raised %r' % (tag, e))])
     full = np.asarray(full)
     n = full.shape[1]
+    if isinstance(cfg['mask_freqs'], np.ndarray):
+        given = np.asarray(MASKCFG[case[3]]['mask_freqs'] if case[0] == 'mask' else cfg['mask_freqs'], dtype=float)
+        used = np.asarray(freqs, dtype=float).reshape(-1)
+        if len(used) < n or not np.array_equal(used[:n], given[:n]):
+            viols.append(('mask:freqs-not-the-given-ones', '%s: returned mask frequencies %s, the list given was %s' % (tag, used.tolist(), given.tolist())))
     limit = 9 if not isinstance(cfg['mask_freqs'], np.ndarray) else len(cfg['mask_freqs'])
     if not basic_shape(full, N, limit, tag, viols, 'mask'):
         return Outcome(cls='mask', viols=viols)
